@@ -8,7 +8,11 @@
 //!   C18 pqasync <spec> <E|T> <k> <n>                     model: res=err (E: fetch k fails) | SKIP (T: fetch k never
 //!                                                        completes, the caller drops the future and asks again)
 //! `props`: 0 default, 1 plain/uncompressed/no dictionary (+ an embedded complete Parquet file in
-//! schema 4), 2 tiny row groups + bloom filters, 3 page-level statistics + small pages.
+//! schema 4), 2 tiny row groups + bloom filters, 3 page-level statistics + small pages, 4/5 bloom
+//! filters after each row group / at the end with several row groups, 6 bloom + page index + no
+//! dictionary, 7 bloom + dictionary, 8 no statistics + small pages (see `props`).
+//! Writer fault ops: after ANY error the harness calls flush/finish/finish/into_inner again and
+//! requires that none of them reports Ok unless the sink holds exactly the fault-free file.
 #[path = "../../../h-core/src/c18_common.rs"]
 mod common;
 use arrow_array::RecordBatch;
@@ -59,12 +63,29 @@ fn spec_schema(spec: &str) -> usize {
     spec.split(':').next().unwrap().parse::<usize>().unwrap() % N_SCHEMAS
 }
 
+/// writer-property grid (the 5th spec field)
+const N_PROPS: usize = 9;
 fn props(id: usize) -> WriterProperties {
+    use parquet::file::properties::BloomFilterPosition;
     let b = WriterProperties::builder();
     match id {
         1 => b.set_dictionary_enabled(false).set_compression(Compression::UNCOMPRESSED).set_encoding(Encoding::PLAIN),
         2 => b.set_max_row_group_row_count(Some(3)).set_bloom_filter_enabled(true),
         3 => b.set_statistics_enabled(EnabledStatistics::Page).set_data_page_row_count_limit(2).set_write_batch_size(2),
+        // bloom filters right after each row group (the default position), several row groups
+        4 => b.set_bloom_filter_enabled(true).set_bloom_filter_position(BloomFilterPosition::AfterRowGroup).set_max_row_group_row_count(Some(700)),
+        // bloom filters at the end of the file
+        5 => b.set_bloom_filter_enabled(true).set_bloom_filter_position(BloomFilterPosition::End).set_max_row_group_row_count(Some(700)),
+        // bloom + page index + no dictionary
+        6 => b
+            .set_bloom_filter_enabled(true)
+            .set_statistics_enabled(EnabledStatistics::Page)
+            .set_dictionary_enabled(false)
+            .set_compression(Compression::UNCOMPRESSED),
+        // bloom + dictionary, one big row group
+        7 => b.set_bloom_filter_enabled(true).set_dictionary_enabled(true).set_statistics_enabled(EnabledStatistics::Chunk),
+        // no statistics, small pages, several row groups
+        8 => b.set_statistics_enabled(EnabledStatistics::None).set_data_page_size_limit(512).set_max_row_group_row_count(Some(500)),
         _ => b,
     }
     .build()
@@ -162,15 +183,26 @@ fn run_pqf(t: &[&str], fails: &mut Fails) -> String {
 
 // ------------------------------------------------------------------------------ writer faults
 
+/// after an error was returned: the caller tries to finalise anyway (cleanup path / retry);
+/// record every later call that reports success
+macro_rules! retry_after_error {
+    ($res:expr, $sink:expr, $out:expr, $( $name:expr => $call:expr ),+ ) => {
+        if $res.is_err() {
+            $out.accepted_at_error = Some($sink.data().len());
+            $( if $call.is_ok() { $out.later_ok.push($name.to_string()); } )+
+        }
+    };
+}
+
 /// low-level API: `SerializedFileWriter` with one row group per batch (int32 + optional binary)
-fn drive_sfw(inp: &Input, spec: &str, sink: FaultSink, notes: &mut Vec<String>) -> PResult<()> {
+fn drive_sfw(inp: &Input, spec: &str, sink: FaultSink, out: &mut Outcome) -> PResult<()> {
     use parquet::data_type::{ByteArray, ByteArrayType, Int32Type};
     let schema = Arc::new(parquet::schema::parser::parse_message_type("message m { required int32 a; optional binary b; }")?);
     let mut w = parquet::file::writer::SerializedFileWriter::new(sink.clone(), schema, Arc::new(props(spec_props(spec))))?;
     let mut go = || -> PResult<()> {
         for (bi, b) in inp.batches.iter().enumerate() {
             let n = b.num_rows();
-            let a: Vec<i32> = (0..n as i32).map(|i| i * 7 + bi as i32).collect();
+            let a: Vec<i32> = (0..n as i32).map(|i| i.wrapping_mul(2654435) ^ bi as i32).collect();
             let defs: Vec<i16> = (0..n).map(|i| (i % 3 != 0) as i16).collect();
             let bv: Vec<ByteArray> = (0..n).filter(|i| i % 3 != 0).map(|i| ByteArray::from(format!("v{i}PAR1").as_str())).collect();
             let mut rg = w.next_row_group()?;
@@ -188,16 +220,14 @@ fn drive_sfw(inp: &Input, spec: &str, sink: FaultSink, notes: &mut Vec<String>) 
     if res.is_ok() {
         res = w.finish().map(|_| ());
     }
-    if res.is_err() && sink.failed() && w.finish().is_ok() {
-        notes.push("finish-ok-after-error".into());
-    }
+    retry_after_error!(res, sink, out, "finish#1" => w.finish(), "finish#2" => w.finish(), "into_inner" => w.into_inner());
     sink.mark_done();
     res
 }
 
-fn drive_writer(writer: &str, inp: &Input, spec: &str, sink: FaultSink, notes: &mut Vec<String>) -> PResult<()> {
+fn drive_writer(writer: &str, inp: &Input, spec: &str, sink: FaultSink, out: &mut Outcome) -> PResult<()> {
     if writer == "sfw" {
-        return drive_sfw(inp, spec, sink, notes);
+        return drive_sfw(inp, spec, sink, out);
     }
     let mut w = ArrowWriter::try_new(sink.clone(), inp.schema.clone(), Some(props(spec_props(spec))))?;
     let mut res = Ok(());
@@ -214,19 +244,26 @@ fn drive_writer(writer: &str, inp: &Input, spec: &str, sink: FaultSink, notes: &
     if res.is_ok() {
         res = w.finish().map(|_| ());
     }
-    if res.is_err() && sink.failed() && w.finish().is_ok() {
-        notes.push("finish-ok-after-error".into());
-    }
+    retry_after_error!(res, sink, out, "flush" => w.flush(), "finish#1" => w.finish(), "finish#2" => w.finish(), "into_inner" => w.into_inner());
     sink.mark_done();
     res
 }
 
-fn fault_free(writer: &str, spec: &str) -> (Vec<u8>, Vec<String>) {
+fn fault_free(writer: &str, spec: &str) -> (Arc<Vec<u8>>, Vec<String>) {
+    let key = format!("ff {writer} {spec}");
+    let tkey = format!("fft {writer} {spec}");
+    if let (Some(d), Some(t)) = (cache().lock().unwrap().get(&key).cloned(), cache().lock().unwrap().get(&tkey).cloned()) {
+        return (d, String::from_utf8(t.as_ref().clone()).unwrap().split(',').map(|x| x.to_string()).collect());
+    }
     let inp = input(spec);
     let sink = FaultSink::new(vec![], false);
-    let mut notes = vec![];
-    drive_writer(writer, &inp, spec, sink.clone(), &mut notes).expect("fault-free write");
-    (sink.data(), sink.trace())
+    let mut out = Outcome::default();
+    drive_writer(writer, &inp, spec, sink.clone(), &mut out).expect("fault-free write");
+    let (d, t) = (Arc::new(sink.data()), sink.trace());
+    let mut c = cache().lock().unwrap();
+    c.insert(key, d.clone());
+    c.insert(tkey, Arc::new(t.join(",").into_bytes()));
+    (d, t)
 }
 
 fn run_wfault(t: &[&str], fails: &mut Fails) -> String {
@@ -237,20 +274,31 @@ fn run_wfault(t: &[&str], fails: &mut Fails) -> String {
     }
     let inp = input(spec);
     let sink = FaultSink::new(parse_sched(sched), true);
-    let mut notes = vec![];
-    let res = drive_writer(writer, &inp, spec, sink.clone(), &mut notes);
+    let mut out = Outcome::default();
+    let res = drive_writer(writer, &inp, spec, sink.clone(), &mut out);
     let data = sink.data();
-    if !is_prefix(&data, &good) {
-        fails.push(("not-a-prefix".into(), format!("sink holds {} bytes that are not a prefix of the fault-free output", data.len())));
+    let accepted = out.accepted_at_error.unwrap_or(data.len());
+    if !is_prefix(&data[..accepted.min(data.len())], &good) {
+        fails.push(("not-a-prefix".into(), format!("sink holds {accepted} bytes that are not a prefix of the fault-free output")));
     }
-    if res.is_ok() && data != good {
+    if res.is_ok() && data != *good {
         fails.push((
             "ok-but-incomplete".into(),
             format!("writer reported success but the sink holds {} of {} bytes", data.len(), good.len()),
         ));
     }
-    for n in notes {
-        fails.push((n.clone(), n));
+    // sticky failure: after an error no later finish/close/into_inner may report success unless the
+    // sink ended up holding exactly the complete fault-free file
+    if !out.later_ok.is_empty() && data != *good {
+        fails.push((
+            "ok-after-error".into(),
+            format!(
+                "{} returned Ok after an earlier call had failed, but the sink holds {} bytes that are not the fault-free file ({} bytes)",
+                out.later_ok.join("+"),
+                data.len(),
+                good.len()
+            ),
+        ));
     }
     if res.is_ok() {
         // the writer said Ok: what the sink holds must read back as the rows written
@@ -272,7 +320,7 @@ fn run_wfault(t: &[&str], fails: &mut Fails) -> String {
             fails.push(("ok-but-unreadable".into(), format!("output of a successful writer {why}")));
         }
     }
-    format!("accepted={} res={}", data.len(), if res.is_ok() { "ok" } else { "err" })
+    format!("accepted={accepted} res={}", if res.is_ok() { "ok" } else { "err" })
 }
 
 // ------------------------------------------------------------------------------ reader faults
@@ -520,7 +568,7 @@ fn nt(k: usize, len: usize) -> &'static str {
 
 fn gen_pqf(sink: &mut Sink, rng: &mut Rng) {
     let sid = *rng.pick(&[0usize, 1, 2, 3, 4, 4, 5, 6]);
-    let p = if sid == 4 { *rng.pick(&[1usize, 1, 0]) } else { rng.usize(4) };
+    let p = if sid == 4 { *rng.pick(&[1usize, 1, 0]) } else { rng.usize(N_PROPS) };
     let spec = format!("{}:{p}", gen_spec(rng, &[sid]));
     let bytes = file_bytes(&spec);
     let reader = *rng.pick(&["md", "ab", "ab", "sfr"]);
@@ -533,16 +581,25 @@ fn gen_pqf(sink: &mut Sink, rng: &mut Rng) {
 
 fn gen_wfault(sink: &mut Sink, rng: &mut Rng, i: usize) {
     let writer = ["aw", "sfw", "awf"][i % 3];
-    // every third input is large enough to overflow the writer's internal 8 KiB buffer
-    let spec = if rng.chance(1, 4) {
-        format!("1:{}:{}:{}:{}", 1 + rng.usize(2), 1100 + rng.usize(400), rng.usize(100000), rng.usize(4))
-    } else {
-        format!("{}:{}", gen_spec(rng, &[0, 1, 2, 3, 4, 5, 6]), rng.usize(4))
+    // input classes, round-robin: small (all schemas, whole property grid); row groups > 8 KiB
+    // (the writer's internal buffer) with bloom filters in both positions; one file > 64 KiB
+    let bloomy = [4usize, 5, 6, 7, 2];
+    let (spec, large) = match i % 6 {
+        0 | 1 => (format!("{}:{}", gen_spec(rng, &[0, 1, 2, 3, 4, 5, 6]), rng.usize(N_PROPS)), false),
+        2 | 3 => (format!("{}:{}", gen_spec(rng, &[0, 1, 2, 3, 4, 5, 6]), bloomy[rng.usize(5)]), false),
+        4 => (format!("1:{}:{}:{}:{}", 1 + rng.usize(2), 1100 + rng.usize(900), rng.usize(100000), bloomy[rng.usize(4)]), true),
+        _ => (format!("1:2:{}:{}:{}", 4200 + rng.usize(600), rng.usize(100000), [4usize, 5, 8, 0][(i / 6) % 4]), true),
     };
     let (_, trace) = fault_free(writer, &spec);
-    for (sched, kind) in schedules_for(&trace) {
+    let scheds = if large { schedules_for_large(&trace) } else { schedules_for(&trace) };
+    for (sched, kind) in scheds {
         let line = format!("C18 pqwfault {writer} {spec} {sched} {}", show_list(&trace));
-        let tags = format!("op:pqwfault writer:{writer} fault:{kind} schema:{} nt", schema_name(spec_schema(&spec)));
+        let tags = format!(
+            "op:pqwfault writer:{writer} fault:{kind} schema:{} props:{} {} nt",
+            schema_name(spec_schema(&spec)),
+            spec_props(&spec),
+            if large { "size:large" } else { "size:small" }
+        );
         emit(sink, line, &tags);
     }
 }
@@ -608,7 +665,7 @@ fn main() {
         for _ in 0..n {
             gen_pqf(&mut sink, &mut rng);
         }
-        for i in 0..n * 2 {
+        for i in 0..n * 3 {
             gen_wfault(&mut sink, &mut rng, i);
         }
         for _ in 0..n {
